@@ -8,7 +8,9 @@ PROP = "C05"
 def run(tier):
     rep = vlib.Report(PROP, tier)
     binary = vlib.build_harness()
-    common.mc_replay(rep, binary, PROP, "MC_C05", keyf=common.default_key)
+    d, cases, outs = common.mc_replay(rep, binary, PROP, "MC_C05", keyf=common.default_key)
+    # (b) impl -> spec: value-level mutations of the accepted extension encodings, compared with the specification's answer
+    common.dfuzz(rep, binary, PROP, cases, 3000 if tier != "thorough" else 60000)
     common.ext_type_sweep(rep, binary, PROP)
     # typed contents that are a bare number: every value of the number (all 256 / 65536) through the extension parsers
     common.site_sweep(rep, binary, PROP, keep=lambda s: s["fn"].startswith("parse_tls_extension") or s["fn"].endswith("_extension"))
